@@ -1,3 +1,4 @@
+-- NOTE (round 7): the exact ratio (3k-1)/(4k-2) is proved for EVERY k in PrtpyProofs/MaxMin5.lean (`MaxMin5.greedy_maxmin`); what this file calls open is closed there.
 /-
   PrtpyProofs.MaxMin3 — property C08, the exact max-min guarantee of LPT (`greedy`):
   "LPT's smallest sum is at least `(3k−1)/(4k−2)` of the optimal smallest sum" (Csirik–Kellerer–Woeginger 1992).
